@@ -94,7 +94,7 @@ META = {
             'full run) then 3-8 ops: runs (selection, -a, -c, failing actions), forget in 12 argument forms (names, -s, '
             '--all, --disable-default, none, unknown names), ignore, reset-dep (named / all), edits / touches / '
             'deletions of sources and targets, each command mostly followed by a run; 10% of md5 cases change the '
-            'checker once, 12% do so while a file_dep is missing and reset-dep is issued (after an ignore in half of them); 12% mutations of corpus seeds; exhaustive tier: every command word of length <= 1 (quick; '
+            'checker once, 12% do so while a file_dep is missing and reset-dep is issued (after an ignore in half of them); 20% with boundary REAL mtimes (12%: one write of the history -- mostly a source or a target of the first run -- gets mtime exactly 0, the next ones 1, 2, ...; 8%: mtimes start at 1 / below 2**31 / below 2**32 / in the year 2286), 30% of the cases that use the timestamp checker use a user-written FileChangedChecker (timestamp rule, states of its own) whose state for one file is falsy-but-valid (0, \'\', [], False, 0.0) -- counters real-mtimes:*, checker-class:*, falsy-file-state-in-db-after:<command>; 12% mutations of corpus seeds; exhaustive tier: every command word of length <= 1 (quick; '
             'length 2 sampled) / <= 2 (thorough; length 3 sampled) over a 15-letter alphabet on 6 fixed task sets (DB location rotating); '
             'non-trivial = a command changed the DB and a later run both skipped/ignored and executed; distinct = '
             'distinct rendered case',
@@ -163,8 +163,27 @@ def arg_name(names, t):
 class Shift(object):
     """real mtime -> model clock (the harness clock ticks exactly when the model's does)"""
 
+    def __init__(self, world=None):
+        self.world = world
+
     def get(self, m, default=None):
-        return int(m) - T0
+        return int(m) - T0 if self.world is None else self.world.model_of(int(m))
+
+
+# ---- boundary mtimes and falsy-but-valid file states (round 6).  Both knobs change only what the REAL files / the real
+# checker states look like; the model (its own clock, checker kinds md5 / ts) is untouched: the code under test may
+# compare mtimes / states for equality only, never test them for truth or order them.
+#   case['mtimes'] = {'zero_at': z}   the z-th write of the history gets the real mtime 0 (1970-01-01: reproducible
+#                                     archives, `touch -d @0`), the following ones 1, 2, ...; earlier ones wrap around
+#                    {'base': name}   the real mtimes start at 1 / just below 2**31 / just below 2**32 / in the year 2286
+#   case['ckfalsy'] = {'v': i, 'at': z}   `check_file_uptodate` is a user-written FileChangedChecker (not derived from a
+#                                     builtin one) with the rule of the timestamp checker whose state for the file
+#                                     written at tick z is FALSY_STATES[i] -- a valid state that is falsy (a size-based
+#                                     checker on an empty file, a counter at 0, an empty digest list)
+MT_MOD = 100003
+MT_BASES = {'one': 1, 'y2038': 2 ** 31 - 3, 'u32': 2 ** 32 - 3, 'far': 10 ** 10}
+FALSY_STATES = [0, '', [], False, 0.0]
+CK_OFFSET = 5000
 
 
 # ----------------------------------------------------------------------------------------------
@@ -269,6 +288,61 @@ class GraphWorld(statuslib.World):
             self.db = os.path.abspath(self.db)
         elif self.db_loc == 'missing-dir':
             self.db = os.path.join('no-such-dir', self.db)
+        self.falsy_seen = 0      # recorded file states that are falsy / hold a zero mtime, in the last dump
+        self.mtimes = case.get('mtimes') or None
+        self.ckfalsy = case.get('ckfalsy') or None
+        self._ckcls = None
+
+    # -- real mtimes (see MT_BASES above); model clock k = harness clock - T0
+    def real_sec(self, mtime):
+        k = mtime - T0
+        if not self.mtimes:
+            return mtime
+        if self.mtimes.get('zero_at') is not None:
+            return (k - self.mtimes['zero_at']) % MT_MOD
+        return MT_BASES[self.mtimes['base']] + k - 1
+
+    def model_of(self, real):
+        if not self.mtimes:
+            return real - T0
+        if self.mtimes.get('zero_at') is not None:
+            return (real + self.mtimes['zero_at']) % MT_MOD
+        return real - MT_BASES[self.mtimes['base']] + 1
+
+    def _ns(self, mtime):
+        return self.real_sec(mtime) * statuslib.NS
+
+    def checker_value(self):
+        """what `check_file_uptodate` is set to"""
+        if not (self.ckfalsy and self.checker == 'timestamp'):
+            return self.checker
+        if self._ckcls is None:
+            from doit.dependency import FileChangedChecker
+            world, spec = self, self.ckfalsy
+
+            class UserTS(FileChangedChecker):
+                """the rule of the timestamp checker, with states of its own: one of them is falsy"""
+                def _state(self, mtime):
+                    k = world.model_of(int(mtime))
+                    return FALSY_STATES[spec['v']] if k == spec['at'] else CK_OFFSET + k
+
+                def check_modified(self, file_path, file_stat, state):
+                    return self._state(file_stat.st_mtime) != state
+
+                def get_state(self, dep, current_state):
+                    return self._state(os.path.getmtime(dep))
+            self._ckcls = UserTS
+        return self._ckcls
+
+    def _decode_state(self, st):
+        """state of the user-written checker -> the real mtime it stands for (what the timestamp checker would hold)"""
+        if st is None or (isinstance(st, (list, tuple)) and len(st) == 3):
+            return st
+        if not st:
+            return float(self.real_sec(T0 + self.ckfalsy['at']))
+        if isinstance(st, int) and st >= CK_OFFSET:
+            return float(self.real_sec(T0 + st - CK_OFFSET))
+        return st
 
     def _task_dict(self, i, with_name=None):
         world = self
@@ -327,12 +401,16 @@ class GraphWorld(statuslib.World):
         from doit.doit_cmd import DoitMain
         from doit.cmd_base import ModuleTaskLoader
         ns = self.namespace()
-        cfg = {'dep_file': self.db, 'backend': self.backend, 'verbosity': 0, 'check_file_uptodate': self.checker}
+        ck = self.checker_value()
+        cfg = {'dep_file': self.db, 'backend': self.backend, 'verbosity': 0, 'check_file_uptodate': ck}
         if self.db_loc == 'cli':
             # DB file, backend and checker given as command line options of every command instead of DOIT_CONFIG
+            # (a checker CLASS can not be named on a command line: it stays in DOIT_CONFIG)
             cfg = {'verbosity': 0}
-            argv = [argv[0], '--db-file', self.db, '--backend', self.backend,
-                    '--check_file_uptodate', self.checker] + list(argv[1:])
+            if not isinstance(ck, str):
+                cfg['check_file_uptodate'] = ck
+            argv = [argv[0], '--db-file', self.db, '--backend', self.backend] + (
+                ['--check_file_uptodate', ck] if isinstance(ck, str) else []) + list(argv[1:])
         if self.case.get('default') is not None:
             cfg['default_tasks'] = [self.names[t] for t in self.case['default']]
         if reporter is not None:
@@ -352,6 +430,7 @@ class GraphWorld(statuslib.World):
     def dump(self):
         from doit import dependency as dep
         cls = {'json': dep.JsonDB, 'dbm': dep.DbmDB, 'sqlite3': dep.SqliteDB}[self.backend]
+        self.falsy_seen = 0
         db = cls(self.db, codec=dep.JSONCodec())
         out = []
         try:
@@ -360,6 +439,13 @@ class GraphWorld(statuslib.World):
                 for key in ['_values_:', 'result:', 'checker:', 'deps:', 'ignore:']:
                     rec[key] = db.get(name, key)
                 rec['files'] = {p: db.get(name, fname(p)) for p in range(self.npaths)}
+                for st in rec['files'].values():
+                    if st is not None and not isinstance(st, (list, tuple)) and not st:
+                        self.falsy_seen += 1
+                    elif isinstance(st, (list, tuple)) and (len(st) == 0 or (len(st) == 3 and not st[0])):
+                        self.falsy_seen += 1
+                if self.ckfalsy:
+                    rec['files'] = {p: self._decode_state(st) for p, st in rec['files'].items()}
                 out.append(rec)
         finally:
             try:
@@ -379,7 +465,7 @@ class GraphWorld(statuslib.World):
                 with open(fname(p)) as f:
                     data = f.read()
                 cid = statuslib._MD5_CID.get(statuslib._md5(data), 999)
-                snap.append([int(st.st_mtime) - T0, st.st_size, cid])
+                snap.append([self.model_of(int(st.st_mtime)), st.st_size, cid])
             except OSError:
                 snap.append(None)
         return snap
@@ -458,7 +544,7 @@ def run_history(case):
     names = w.names
     index = {n: i for i, n in enumerate(names)}
     obs = []
-    shift = Shift()
+    shift = Shift(w)
 
     def canon_db():
         try:
@@ -529,6 +615,7 @@ def run_history(case):
             o['stderr'] = err[-300:] if code not in (0, 1, 2) else ''
         o['pre'] = prev
         o['db'] = canon_db()
+        o['falsy'] = w.falsy_seen
         prev = o['db']
         obs.append(o)
     return obs
@@ -879,6 +966,14 @@ def render(case):
     if (case.get('db_loc') or 'plain') != 'plain':
         out[0] += ' db-file=%s' % {'subdir': 'in a sub-directory', 'abs': 'absolute path', 'missing-dir': 'in a directory that does not exist',
                                    'cli': 'given by --db-file/--backend/--check_file_uptodate on every command line'}[case['db_loc']]
+    mt = case.get('mtimes')
+    if mt:
+        out.append('  real mtimes: ' + ('write #%d of the history gets mtime 0 (os.utime(f, (0, 0))), the next ones 1, 2, ...'
+                                        % mt['zero_at'] if mt.get('zero_at') is not None
+                                        else 'start at %d' % MT_BASES[mt['base']]))
+    if case.get('ckfalsy'):
+        out.append('  check_file_uptodate=timestamp is a user-written FileChangedChecker (state = mtime code; the state of '
+                   'the file written by write #%d is %r)' % (case['ckfalsy']['at'], FALSY_STATES[case['ckfalsy']['v']]))
     for i, t in enumerate(case['tasks']):
         bits = []
         if t.get('group'):
@@ -1065,6 +1160,10 @@ def shrink_candidates(case):
             yield dict(case, tasks=case['tasks'][:i] + [dict(t, private=False)] + case['tasks'][i + 1:])
     if case['backend'] != 'json':
         yield dict(case, backend='json')
+    if case.get('ckfalsy'):
+        yield dict(case, ckfalsy=None)
+    if case.get('mtimes'):
+        yield dict(case, mtimes=None)
     if case['checker'] != 'md5':
         yield dict(case, checker='md5')
 
@@ -1345,7 +1444,30 @@ def gen_case(rng):
         # cannot read, findings/pending/C03-md5-on-timestamp-state.md)
         first_run = next((k for k, o in enumerate(ops) if o[0] == 'run'), len(ops) - 1)
         ops.insert(rng.randint(first_run + 1, len(ops)), ['checker', 'timestamp'])
+    gen_file_state_knobs(rng, case)
     return sanitize_delayed_selection(case)
+
+
+def gen_file_state_knobs(rng, case, p_mt=0.2, p_ck=0.3):
+    """boundary mtimes / a user-written checker with a falsy state (see MT_BASES): which write of the history gets the
+    special value is random -- mostly one of the initial source writes or a target written by the first run, so that
+    the file is a file_dep of some task when run / reset-dep record its state"""
+    ops = case['ops']
+    early = sum(1 for op in ops[:case['nsrc']] if op[0] == 'edit')
+    first = next((op for op in ops if op[0] == 'run'), None)
+    early += len((first[1].get('plan') or {})) if first else 0
+    x = rng.random()
+    if x < p_mt * 0.6:
+        case['mtimes'] = {'zero_at': rng.randint(1, max(1, early)) if rng.random() < 0.85 else rng.randint(1, early + 6)}
+        if case['checker'] == 'md5' and not any(op[0] == 'checker' for op in ops) and rng.random() < 0.6:
+            case['checker'] = 'timestamp'
+    elif x < p_mt:
+        case['mtimes'] = {'base': rng.choice(sorted(MT_BASES))}
+    uses_ts = case['checker'] == 'timestamp' or any(op[0] == 'checker' for op in ops)
+    if uses_ts and rng.random() < p_ck:
+        case['ckfalsy'] = {'v': rng.randrange(len(FALSY_STATES)),
+                           'at': rng.randint(1, max(1, early)) if rng.random() < 0.85 else rng.randint(1, early + 6)}
+    return case
 
 
 def mutate_case(rng, case):
@@ -1367,6 +1489,8 @@ def mutate_case(rng, case):
             c['ops'].insert(pos, ['reset', gen_names(rng, n)])
         elif len(c['ops']) > 2:
             del c['ops'][rng.randrange(len(c['ops']))]
+    if not c.get('mtimes') and not c.get('ckfalsy'):
+        gen_file_state_knobs(rng, c, p_mt=0.15, p_ck=0.2)
     return sanitize_delayed_selection(c)
 
 
@@ -1446,6 +1570,12 @@ def exhaustive_cases(maxlen, rng, sample=None):
                 cases.append({'backend': statuslib.BACKENDS[k % 3], 'checker': statuslib.CHECKERS[(k // 3) % 2],
                               'db_loc': ['plain', 'subdir', 'abs', 'cli'][(k // 6) % 4], 'nsrc': 1, 'tasks': json.loads(json.dumps(tasks)), 'default': default, 'ops': ops,
                               'origin': 'exhaustive'})
+                if k % 5 == 3:
+                    cases[-1]['mtimes'] = {'zero_at': 1 + (k // 5) % 2}     # f0 (the source) / the first target written
+                elif k % 5 == 1:
+                    cases[-1]['mtimes'] = {'base': sorted(MT_BASES)[(k // 5) % len(MT_BASES)]}
+                if cases[-1]['checker'] == 'timestamp' and (k // 6) % 3 == 1:
+                    cases[-1]['ckfalsy'] = {'v': (k // 18) % len(FALSY_STATES), 'at': 1}
                 sanitize_delayed_selection(cases[-1])
                 k += 1
     return cases
@@ -1500,6 +1630,15 @@ def process_batch(arg):
         if any(t.get('private') for t in case['tasks']):
             st.count('has-private-task')
         st.count('db-loc:%s' % (case.get('db_loc') or 'plain'))
+        mt = case.get('mtimes')
+        if mt:
+            st.count('real-mtimes:%s' % ('a write gets mtime 0' if mt.get('zero_at') is not None else 'start at ' + mt['base']))
+        if case.get('ckfalsy'):
+            st.count('checker-class:user-written, falsy state %r' % (FALSY_STATES[case['ckfalsy']['v']],))
+        for op, o in zip(case['ops'], r['obs']):
+            if o.get('falsy') and op[0] in ('run', 'reset', 'forget', 'ignore'):
+                st.count('falsy-file-state-in-db-after:%s (%s)' % (op[0], 'user-written checker' if case.get('ckfalsy')
+                                                                   else 'mtime 0'))
         if not any(o[0] == 'run' for o in case['ops'][:case['nsrc'] + 1]):
             st.count('first-command-on-missing-db')
         for op in case['ops']:
